@@ -35,3 +35,11 @@ package config
 //@   loop 1 invariant [values-encoded] implies(a.LContext.MaxCount > 0, has(options, "max") && options["max"] == itoa(a.LContext.MaxCount)) && implies(a.LContext.BeforeContext > 0, has(options, "before") && options["before"] == itoa(a.LContext.BeforeContext)) && implies(a.LContext.AfterContext > 0, has(options, "after") && options["after"] == itoa(a.LContext.AfterContext))
 //@   loop 1 invariant [modes-encoded] has(options, "plain") == a.Plain && has(options, "quiet") == a.Quiet && has(options, "serverless") == a.Serverless && implies(a.Plain, options["plain"] == "true") && implies(a.Quiet, options["quiet"] == "true") && implies(a.Serverless, options["serverless"] == "true")
 //@   loop 1 invariant [nothing-else] implies(a.LContext.MaxCount == 0, !has(options, "max")) && implies(a.LContext.BeforeContext == 0, !has(options, "before")) && implies(a.LContext.AfterContext == 0, !has(options, "after"))
+
+// ---- permission rules of a user (C08) ---------------------------------------------------------------
+// A user's own rule list replaces the default list; an empty list is an error.
+//@ func ServerUserPermissions
+//@   assigns nothing
+//@   ensures [per-user-overrides-default] implies(has(Server.Permissions.Users, userName), permissions == Server.Permissions.Users[userName])
+//@   ensures [default-otherwise] implies(!has(Server.Permissions.Users, userName), permissions == Server.Permissions.Default)
+//@   ensures [empty-is-error] implies(len(permissions) == 0, !isnil(err))
